@@ -45,6 +45,7 @@ type Ctx struct {
 	programs   int
 	disagree   int
 	validated  int
+	refBatch   int
 }
 
 type Violation struct {
